@@ -370,7 +370,7 @@ func argNames(a []int) []string {
 
 // ---------------------------------------------------------------- Comment / GoDirective / Snippets / Fragments
 
-var lineAlphabet = []string{"", "x", " y ", "a // b", "é@a'%v"}
+var lineAlphabet = []string{"", "x", " y ", "a // b", "é@a'%v", "z\r"}
 
 func checkComment(c *core.Ctx, lines []string) {
 	cs := Case{Kind: "Comment", Lines: lines}
@@ -700,6 +700,15 @@ func run(c *core.Ctx) {
 		}
 		checkComment(c, lines)
 	})
+	if c.Next() {
+		// lines longer than any line buffer (an embedded data URI): 64 KiB - 1, 64 KiB, 70 KiB
+		for _, n := range []int{1<<16 - 1, 1 << 16, 70 << 10} {
+			long := strings.Repeat("x", n)
+			checkComment(c, []string{long})
+			checkComment(c, []string{"a", long, "b"})
+			checkComment(c, []string{long, ""})
+		}
+	}
 	for _, d := range dirAlphabet {
 		core.Explore(c, core.ExploreOpts{Bound: -1}, func(ch *core.Chooser, _ bool) {
 			ks := buildSeq(ch, len(dirArgAlphabet), 4)
